@@ -5,8 +5,10 @@
    BAI    noodles-bam/src/bai/io/reader/index.rs (+ index/magic_number.rs, reference_sequences.rs,
           reference_sequences/{bins,intervals}.rs, noodles-csi .../bins/chunks.rs, metadata.rs):
           magic, u32 n_ref, per reference read_bins (u32 n_bin; u32 id; the metadata pseudo-bin
-          37450 or a chunk list; errors of read_metadata / read_chunks re-wrapped as InvalidData;
-          duplicates InvalidData) and read_intervals, then the optional trailing u64 (a read_exact
+          37450 or a chunk list; after /repo d76b74b an I/O error of read_metadata / read_chunks
+          keeps its kind -- UnexpectedEof for an input that ends inside a bin -- and only their
+          other variants, the invalid chunk counts, are InvalidData: exactly the kinds g_metadata /
+          g_chunks fail with, so nothing is re-wrapped; duplicates InvalidData) and read_intervals, then the optional trailing u64 (a read_exact
           whose UnexpectedEof is None)
    fai    noodles-fasta/src/fai/io/reader.rs read_index (after /repo 24986d3: names are bytes):
           read_line_bytes = read_until(LF) until 0, LF / CRLF popped, parse_record_bytes; the crai
@@ -57,10 +59,10 @@ Definition bins_st : Type := (list Layout.binp * option Layout.metadata)%type.
 Definition g_bin_step (st : bins_st) : prog bins_st :=
   bind (p_le 4) (fun id =>
     if id =? Layout.bai_metadata_id then
-      bind (map_err as_invalid g_metadata) (fun md =>
+      bind g_metadata (fun md =>
         match snd st with Some _ => Fail InvalidData | None => Ret (fst st, Some md) end)
     else
-      bind (map_err as_invalid g_chunks) (fun cs =>
+      bind g_chunks (fun cs =>
         if existsb (fun b => fst b =? id) (fst st) then Fail InvalidData
         else Ret ((id, cs) :: fst st, snd st))).
 
